@@ -9,8 +9,8 @@ import Gtree.Model.Bytes
 -/
 namespace Gtree.Go
 
-/-- `len(s)` -/
-def len (s : Bytes) : Int := Int.ofNat s.length
+/-- `len(s)` of a string (its bytes) or of a slice -/
+def len {α : Type} (s : List α) : Int := Int.ofNat s.length
 
 /-- `a % b` (truncated, like Go; Go panics for `b = 0`, which the callers exclude) -/
 def mod (a b : Int) : Int := Int.tmod a b
